@@ -77,7 +77,7 @@ fn main() {
         "c02" => c02::run(&args),
         "c05sfnt" => c05::run_sfnt(&args),
         "c05font" => c05::run_font(&args),
-        "c06" => c06::run(&args), "c06glyphs" => c06::run_glyphs(&args), "c06e2e" => c06::run_e2e(&args),
+        "c06" => c06::run(&args), "c06glyphs" => c06::run_glyphs(&args), "c06e2e" => c06::run_e2e(&args), "c06probe" => c06::run_probe(&args),
         "c07" => c07::run(&args),
         "c01" => c01::run(&args),
         "c01child" => c01::child(&argv[1..]),
@@ -86,14 +86,15 @@ fn main() {
         "c08e2e" => c08::run_e2e(&args),
         "c08one" => c08::run_one(&args),
         "c08e2eone" => c08::run_e2e_one(&args),
-        "c10" => c10::run(&args), "c10e2e" => c10::run_e2e(&args),
+        "c10" => c10::run(&args), "c10e2e" => c10::run_e2e(&args), "c10probe" => c10::run_probe(&args), "c10probe2" => c10::run_probe2(&args),
         "c09" => c09::run(&args), "c09e2e" => c09::run_e2e(&args), "c09wit" => c09::run_witness(&args),
-        "c11" => c11::run("c11", &args), "c11x" => c11::run("c11x", &args), "c11fea" => c11::run_file(&args),
+        "c11" => c11::run("c11", &args), "c11x" => c11::run("c11x", &args), "c11adv" => c11::run("c11adv", &args), "c11fea" => c11::run_file(&args),
         "c16" => c16::run(&args),
+        "c16e2e" => c16::run_e2e(&args),
         "c17" => c17::run(&args),
         "c17x" => c17::run_directed(&args),
         "c18" => c18::run(&args), "c18child" => c18::run_child(&args), "c18e2e" => c18::run_e2e(&args),
-        "c12e2e" => c12::run(&args),
+        "c12e2e" => c12::run(&args), "c12dir" => c12::run_directed(&args),
         "c13lex" => c13::run_lex(&args),
         "c13inc" => c13::run_inc(&args),
         "c03e2e" => c03::run("c03e2e", &args),
